@@ -1,1 +1,379 @@
+//! C09 — on connection failure everything pending fails promptly with the cause.
+//!
+//! Real client, friendly scripted peer, one planned fault per run: a transport fault (send error, receive
+//! error, peer close) or a poison message from a catalogue ("any bytes the server may send"). The fault fires at
+//! a seam-event position that is drawn (search) or swept over every position of a fault-free base run
+//! (fault_enumeration). The scheduler decides the relative order of the failing background task, the shutdown
+//! watcher and the front-end callers.
 
+use std::collections::BTreeMap;
+use std::sync::atomic::AtomicU64;
+use std::sync::{Arc, Mutex};
+use std::time::Duration;
+
+use jsonrpsee_core::client::{Client, IdKind, Subscription, SubscriptionClientT};
+use jsonrpsee_core::rpc_params;
+use serde_json::{Value, json};
+
+use super::calls::{Ans, OpRec, Outcome, PeerCfg, PeerLog, PlanOp, run_op, spawn_peer};
+use super::{Fault, InItem, PLACEHOLDER, Parsed, Wire, nonce_of, parse_out};
+use crate::rt;
+
+const P: &str = "C09";
+pub const POISON_VALUE: u64 = 999_999;
+pub const N_POISON: u32 = 26;
+/// Fault kinds used by the sweep: 0 send error, 1 receive error, 2 peer close, 3.. selected poison kinds.
+pub const SWEEP_KINDS: u32 = 9;
+const SWEEP_POISON: [u32; 6] = [0, 4, 5, 9, 11, 14];
+
+pub fn poison(k: u32, id_str: bool) -> InItem {
+	let t = |s: &str| InItem::Text(s.to_string());
+	let id0 = if id_str { "\"0\"" } else { "0" };
+	match k {
+		0 => t("xyz"),
+		1 => t(""),
+		2 => t(r#"{"jsonrpc":"2.0","id":"#),
+		3 => InItem::Bytes(vec![0xff, 0xfe, b'{', 0x80]),
+		4 => t("[]"),
+		5 => t(r#"{"jsonrpc":"2.0","id":77777,"result":1}"#),
+		6 => t(r#"{"jsonrpc":"2.0","id":"nope","result":1}"#),
+		7 => t(r#"{"jsonrpc":"2.0","id":null,"error":{"code":-32700,"message":"Parse error"}}"#),
+		8 => t(r#"{"jsonrpc":"2.0","id":18446744073709551615,"result":1}"#),
+		9 => t(r#"[{"jsonrpc":"2.0","id":18446744073709551615,"result":1}]"#),
+		10 => InItem::Text(format!(r#"[{{"jsonrpc":"2.0","id":{id0},"result":{POISON_VALUE}}}]"#)),
+		11 => InItem::Text(format!(r#"{{"jsonrpc":"2.0","id":{id0},"result":{POISON_VALUE}}}"#)),
+		12 => {
+			let one = r#"{"jsonrpc":"2.0","method":"noise","params":[1]}"#;
+			InItem::Text(format!("[{}]", vec![one; 10_000].join(",")))
+		}
+		13 => InItem::Text(format!("{}{}", "[".repeat(200), "]".repeat(200))),
+		14 => InItem::Text(format!(r#"{{"jsonrpc":"2.0","id":{id0},"result":1,"error":{{"code":1,"message":"m"}}}}"#)),
+		15 => t(r#"{"jsonrpc":"2.0","method":"n","params":{"subscription":{"a":1},"result":1}}"#),
+		16 => t(r#"{"jsonrpc":"2.0","method":"x"}"#),
+		17 => t("   \n\t "),
+		18 => t("42"),
+		19 => t("null"),
+		20 => t(r#"{"jsonrpc":"2.0","id":9007199254740993,"result":1}"#),
+		21 => InItem::Text(format!(r#"{{"jsonrpc":"2.0","id":{id0}.0,"result":1}}"#)),
+		22 => t(r#"{"jsonrpc":"2.0","id":-1,"result":1}"#),
+		23 => t(r#"[{"jsonrpc":"2.0","id":18446744073709551614,"result":1},{"jsonrpc":"2.0","id":0,"result":2}]"#),
+		24 => t(r#"[{"jsonrpc":"2.0","method":"n","params":{"subscription":1,"error":"bye"}}]"#),
+		_ => t(r#"[{"jsonrpc":"2.0","id":"18446744073709551615","result":1}]"#),
+	}
+}
+
+fn describe_fault(kind: u32) -> String {
+	match kind {
+		0 => "send-error".into(),
+		1 => "recv-error".into(),
+		2 => "peer-close".into(),
+		k => format!("poison-{}", k - 3),
+	}
+}
+
+pub async fn scenario() {
+	// ---------------- plan ----------------
+	let sweep_base = rt::param("sweep_base").is_some();
+	let n_front = rt::draw_range("n_front", 1, 4);
+	let max_conc = *rt::pick("max_conc", &[256usize, 1, 2]);
+	let id_str = rt::chance("id_kind", 1, 3);
+	let presub = rt::chance("presub", 1, 3);
+	let mut plans: Vec<Vec<PlanOp>> = Vec::new();
+	for _ in 0..n_front {
+		let k = rt::draw_range("n_ops", 1, 2);
+		let mut v = Vec::new();
+		for _ in 0..k {
+			v.push(match rt::draw("op", 20) {
+				0..=11 => PlanOp::Call,
+				12..=14 => PlanOp::Batch(rt::draw_range("batch_n", 1, 3)),
+				15..=17 => PlanOp::Subscribe,
+				_ => PlanOp::Notif,
+			});
+		}
+		plans.push(v);
+	}
+	let n_late = rt::draw_range("n_late", 1, 2);
+	// the fault: (kind, position). kind: 0 send error, 1 recv error, 2 peer close, 3+k poison k
+	let (kind, pos, front): (Option<u32>, u64, bool) = if let Some(p) = rt::param("fault_at") {
+		let fk = rt::param("fault_kind").unwrap_or(0) as u32;
+		let kind = if fk < 3 { fk } else { 3 + SWEEP_POISON[(fk as usize - 3) % SWEEP_POISON.len()] };
+		(Some(kind), p, false)
+	} else if sweep_base || rt::chance("nofault", 1, 12) {
+		(None, 0, false)
+	} else {
+		let kind = match rt::draw("fault_class", 4) {
+			0 => 0,
+			1 => rt::draw_range("tf", 1, 2),
+			_ => 3 + rt::draw("poison", N_POISON),
+		};
+		(Some(kind), rt::draw_range("fault_pos", 1, 30) as u64, rt::chance("front", 1, 2))
+	};
+	rt::event("plan", format!("fronts={plans:?} late={n_late} max_conc={max_conc} id_str={id_str} presub={presub} fault={:?}@{pos}", kind.map(describe_fault)));
+
+	let (wire, tx, rx) = Wire::new();
+	{
+		let mut w = wire.lock();
+		if let Some(k) = kind {
+			w.fault_at = Some(pos);
+			w.fault = Some(match k {
+				0 => Fault::SendError,
+				1 => Fault::Recv { item: InItem::Err("injected receive error".into()), front },
+				2 => Fault::Recv { item: InItem::Err("injected: connection closed by peer".into()), front },
+				k => Fault::Recv { item: poison(k - 3, id_str), front },
+			});
+		}
+	}
+	let client = Arc::new(
+		Client::builder()
+			.max_concurrent_requests(max_conc)
+			.id_format(if id_str { IdKind::String } else { IdKind::Number })
+			.request_timeout(Duration::from_secs(60))
+			.build_with_tokio(tx, rx),
+	);
+	let ops: Arc<Mutex<Vec<(OpRec, u64, tokio::time::Instant)>>> = Arc::default();
+	let peer_log: Arc<Mutex<PeerLog>> = Arc::default();
+	let nonce_ctr = Arc::new(AtomicU64::new(1));
+	let peer = spawn_peer(wire.clone(), peer_log.clone(), PeerCfg { hostile: false, id_kind_str: id_str });
+
+	// optional pre-established subscription with a consumer
+	let consumer_ended: Arc<Mutex<Option<(u64, String)>>> = Arc::default();
+	let mut consumer = None;
+	if presub {
+		let r: Result<Subscription<Value>, _> = client.subscribe("sub", rpc_params![0u64], "unsub").await;
+		match r {
+			Ok(mut sub) => {
+				let ce = consumer_ended.clone();
+				consumer = Some(rt::spawn("consumer", async move {
+					while let Some(_item) = sub.next().await {}
+					let st = rt::event("stream-ended", format!("{:?}", sub.close_reason()));
+					*ce.lock().unwrap() = Some((st, format!("{:?}", sub.close_reason())));
+					// keep the handle alive until the end so that drop does not send an unsubscribe
+					sub
+				}));
+			}
+			Err(e) => {
+				rt::event("presub-failed", format!("{e:?}"));
+			}
+		}
+	}
+
+	// front-ends
+	let mut hs = Vec::new();
+	for (ti, plan) in plans.into_iter().enumerate() {
+		let client = client.clone();
+		let ops = ops.clone();
+		let nonce_ctr = nonce_ctr.clone();
+		hs.push(rt::spawn("front", async move {
+			let mut held: Vec<Subscription<Value>> = Vec::new();
+			for op in plan {
+				let t0 = (rt::now_stamp(), tokio::time::Instant::now());
+				let rec = run_op(&client, ti, &op, &nonce_ctr, &mut held).await;
+				ops.lock().unwrap().push((rec, t0.0, t0.1));
+			}
+			held
+		}));
+	}
+	let mut held_all = Vec::new();
+	for h in hs {
+		if let Ok(v) = h.await {
+			held_all.extend(v);
+		}
+	}
+	// late operations (after the fault, if it fired)
+	let first_phase = ops.lock().unwrap().len();
+	for i in 0..n_late {
+		let op = if i == 0 { PlanOp::Call } else { PlanOp::Subscribe };
+		let t0 = (rt::now_stamp(), tokio::time::Instant::now());
+		let rec = run_op(&client, 99, &op, &nonce_ctr, &mut held_all).await;
+		ops.lock().unwrap().push((rec, t0.0, t0.1));
+	}
+	// let everything settle (fires every timer below the watchdog horizon)
+	rt::quiesce().await;
+
+	// ---------------- oracle ----------------
+	let connected = client.is_connected();
+	let on_disc = if !connected {
+		match tokio::time::timeout(Duration::from_secs(1), client.on_disconnect()).await {
+			Ok(e) => Some(format!("{e:?}")),
+			Err(_) => {
+				rt::violate(P, "on-disconnect-hangs", "not-connected", "is_connected() is false but on_disconnect() does not resolve");
+				None
+			}
+		}
+	} else {
+		None
+	};
+	rt::event("end-state", format!("connected={connected} on_disconnect={on_disc:?}"));
+	check(&wire, &ops.lock().unwrap(), &peer_log.lock().unwrap(), kind, connected, on_disc, first_phase, presub && consumer.is_some(), &consumer_ended.lock().unwrap());
+	if sweep_base {
+		rt::probe_n("seam_events", wire.lock().seam_count);
+	}
+	drop(held_all);
+	drop(client);
+	let _ = peer.await;
+	if let Some(c) = consumer {
+		let _ = tokio::time::timeout(Duration::from_secs(1), c).await;
+	}
+}
+
+#[allow(clippy::too_many_arguments)]
+fn check(
+	wire: &Wire,
+	ops: &[(OpRec, u64, tokio::time::Instant)],
+	peer: &PeerLog,
+	kind: Option<u32>,
+	connected: bool,
+	on_disc: Option<String>,
+	first_phase: usize,
+	has_consumer: bool,
+	consumer_ended: &Option<(u64, String)>,
+) {
+	let w = wire.lock();
+	let fault_name = kind.map(describe_fault).unwrap_or_else(|| "none".into());
+	let transport_fault = matches!(kind, Some(0..=2));
+	let fired = w.fault_fired_stamp;
+	// did the client get to see the fault?
+	let noticed: Option<u64> = match kind {
+		Some(0) => w.send_failed_stamp,
+		Some(_) => fired.and_then(|_| {
+			// the fault item is the one pushed without a peer-push event: find a delivered item that equals it
+			w.delivered.iter().find(|(_, _, it)| match (it, kind) {
+				(InItem::Err(e), Some(1)) => e.contains("injected receive error"),
+				(InItem::Err(e), Some(2)) => e.contains("closed by peer"),
+				(it, Some(k)) if k >= 3 => format!("{it:?}") == format!("{:?}", poison(k - 3, false)) || format!("{it:?}") == format!("{:?}", poison(k - 3, true)),
+				_ => false,
+			}).map(|d| d.1)
+		}),
+		None => None,
+	};
+	// nonce -> (wire id)
+	let mut id_of: BTreeMap<u64, String> = BTreeMap::new();
+	for m in &w.out_log {
+		let mut reg = |p: &Parsed| {
+			if let Parsed::Call { id, params, method } = p {
+				if method != "unsub" {
+					if let Some(n) = nonce_of(params) {
+						id_of.insert(n, id.to_string());
+					}
+				}
+			}
+		};
+		match parse_out(&m.text) {
+			Parsed::Batch(es) => es.iter().for_each(&mut reg),
+			p => reg(&p),
+		}
+	}
+	let poison_target = |n: u64| id_of.get(&n).is_some_and(|i| i == "0" || i == "\"0\"");
+	let genuine = |n: u64, a: &Ans| -> bool {
+		peer.answers.iter().any(|x| x.nonce == Some(n) && &x.ans == a) || (poison_target(n) && *a == Ans::Ok(json!(POISON_VALUE)))
+	};
+	let mut causes: Vec<String> = Vec::new();
+	let mut outstanding_at_fault = 0;
+	for (idx, (op, inv_stamp, inv_t)) in ops.iter().enumerate() {
+		let late = idx >= first_phase;
+		if let Some(n) = noticed {
+			if *inv_stamp < n && op.done_stamp > n {
+				outstanding_at_fault += 1;
+			}
+		}
+		let what = match &op.outcome {
+			Outcome::Call(..) => "call",
+			Outcome::Batch(..) => "batch",
+			Outcome::Sub(..) => "subscribe",
+			Outcome::Notif(..) => "notification",
+		};
+		let phase = if late { "late" } else { "pending" };
+		let mut on_err = |e: &str| {
+			if e.contains(PLACEHOLDER) {
+				rt::violate(P, "placeholder-cause", format!("{what}:{phase}:{fault_name}"), format!("op {:?} failed with the placeholder error instead of the disconnect cause: {e}", op.nonces));
+			} else if e.contains("RequestTimeout") {
+				let elapsed_before_fault = w.fault_fired_vtime.is_some_and(|ft| ft.duration_since(*inv_t) >= Duration::from_secs(60));
+				if !elapsed_before_fault {
+					rt::violate(P, "stalled-until-timeout", format!("{what}:{phase}:{fault_name}"), format!("op {:?} was left pending until its request timeout instead of failing with the cause", op.nonces));
+				}
+			} else if e.starts_with("RestartNeeded(") {
+				causes.push(e.to_string());
+				if transport_fault && !e.contains("injected") {
+					rt::violate(P, "wrong-cause", format!("{what}:{phase}:{fault_name}"), format!("op {:?} failed with {e}, which does not carry the injected transport fault", op.nonces));
+				}
+				if kind.is_none() {
+					rt::violate(P, "spurious-disconnect", format!("{what}:{phase}"), format!("op {:?} failed with {e} although no fault was injected and the peer behaved", op.nonces));
+				}
+			} else if transport_fault || kind.is_none() {
+				rt::violate(P, "unexpected-error", format!("{what}:{phase}:{fault_name}"), format!("op {:?} failed with {e}", op.nonces));
+			} else {
+				rt::probe("other_error_after_poison");
+			}
+		};
+		match &op.outcome {
+			Outcome::Call(Ok(_), Some(a)) | Outcome::Sub(Ok(_), Some(a)) => {
+				if !genuine(op.nonces[0], a) {
+					rt::violate(P, "wrong-success", format!("{what}:{fault_name}"), format!("op {:?} succeeded with {a:?}, which the peer never sent for it", op.nonces));
+				}
+			}
+			Outcome::Call(Err(_), Some(a)) | Outcome::Sub(Err(_), Some(a)) => {
+				if !genuine(op.nonces[0], a) {
+					rt::violate(P, "wrong-success", format!("{what}:err:{fault_name}"), format!("op {:?} completed with error object {a:?}, which the peer never sent for it", op.nonces));
+				}
+			}
+			Outcome::Batch(Ok(list)) => {
+				for (n, a) in op.nonces.iter().zip(list) {
+					if !genuine(*n, a) && !matches!(a, Ans::Err(..)) {
+						rt::violate(P, "wrong-success", format!("batch:{fault_name}"), format!("batch entry nonce={n} completed with {a:?}, which the peer never sent for it"));
+					}
+				}
+			}
+			Outcome::Call(Err(e), None) | Outcome::Sub(Err(e), None) | Outcome::Batch(Err(e)) => on_err(e),
+			Outcome::Notif(Err(e)) => on_err(e),
+			Outcome::Notif(Ok(())) => {}
+			_ => {}
+		}
+		// late operations after a noticed transport fault must fail
+		if late && transport_fault && noticed.is_some_and(|n| n < *inv_stamp) {
+			let failed = matches!(&op.outcome, Outcome::Call(Err(_), None) | Outcome::Sub(Err(_), None) | Outcome::Batch(Err(_)) | Outcome::Notif(Err(_)));
+			if !failed {
+				rt::violate(P, "late-op-not-failed", format!("{what}:{fault_name}"), format!("op {:?} issued after the connection failed did not fail: {:?}", op.nonces, op.outcome));
+			}
+		}
+	}
+	// end state
+	let disconnected_expected = transport_fault && noticed.is_some();
+	if disconnected_expected && connected {
+		rt::violate(P, "still-connected", fault_name.clone(), "is_connected() is still true at quiescence after the transport failed");
+	}
+	if let Some(d) = &on_disc {
+		if d.contains(PLACEHOLDER) {
+			rt::violate(P, "placeholder-cause", format!("on_disconnect:{fault_name}"), format!("on_disconnect() resolved with the placeholder: {d}"));
+		}
+		if transport_fault && noticed.is_some() && !d.contains("injected") {
+			rt::violate(P, "wrong-cause", format!("on_disconnect:{fault_name}"), format!("on_disconnect() resolved with {d}"));
+		}
+		for c in &causes {
+			if c != d && !c.contains(PLACEHOLDER) && !d.contains(PLACEHOLDER) {
+				rt::violate(P, "inconsistent-cause", fault_name.clone(), format!("an operation failed with {c} but on_disconnect() reports {d}"));
+				break;
+			}
+		}
+	}
+	if !causes.is_empty() && connected {
+		rt::violate(P, "still-connected", format!("after-restart-needed:{fault_name}"), "operations failed with RestartNeeded but is_connected() is true at quiescence");
+	}
+	if has_consumer && !connected && consumer_ended.is_none() {
+		rt::violate(P, "stream-not-ended", fault_name.clone(), "the connection is gone but an open subscription stream has not ended at quiescence");
+	}
+	if noticed.is_some() && outstanding_at_fault > 0 {
+		rt::probe("nontrivial");
+		rt::fingerprint(&fault_name);
+	}
+	if noticed.is_some() {
+		rt::probe(match kind {
+			Some(0) => "noticed.send_error",
+			Some(1) => "noticed.recv_error",
+			Some(2) => "noticed.peer_close",
+			_ => "noticed.poison",
+		});
+	}
+	if !connected && kind.is_some_and(|k| k >= 3) {
+		rt::probe("poison_caused_disconnect");
+	}
+}
